@@ -97,12 +97,12 @@ Qed.
 
 (** Address arithmetic: the statement of line L sits at origin + L - 1; after its fetch the PC is
     origin + L; adding the sign-extended field gives the address of line R's statement. *)
-Lemma pcrel_target orig line r nbits o :
-  1 <= nbits -> nbits <= 15 -> 1 <= line -> line < 65536 -> 1 <= r -> r < 65536 -> orig < 65536 ->
+Lemma pcrel_target0 orig line r nbits o :
+  1 <= nbits -> nbits <= 15 -> line < 65536 -> 1 <= r -> r < 65536 -> orig < 65536 ->
   bit_offs line (LRef r) nbits = Ok o ->
   addw (wrap (orig + line)) (sext nbits o) = wrap (orig + r - 1).
 Proof.
-  intros Hn Hn' Hl Hl' Hr Hr' Ho H.
+  intros Hn Hn' Hl' Hr Hr' Ho H.
   destruct (bit_offs_spec line r nbits Hn Hn') as [Hspec _].
   destruct (Hspec o H) as [Hd ->]. clear Hspec H.
   rewrite sext_of_field by assumption.
@@ -128,6 +128,12 @@ Proof.
       with ((Z.of_N orig + Z.of_N line - 1 + Z.of_N q) + (-1) * 65536)%Z by ring.
     rewrite Z.mod_add by lia. rewrite Hq. rewrite Zplus_mod_idemp_r. f_equal. ring.
 Qed.
+
+Lemma pcrel_target orig line r nbits o :
+  1 <= nbits -> nbits <= 15 -> 1 <= line -> line < 65536 -> 1 <= r -> r < 65536 -> orig < 65536 ->
+  bit_offs line (LRef r) nbits = Ok o ->
+  addw (wrap (orig + line)) (sext nbits o) = wrap (orig + r - 1).
+Proof. intros; eapply pcrel_target0; eassumption. Qed.
 
 (* ------------------------------------------------------------------ *)
 (** * Every emitted word decodes to the instruction that was written (C01) *)
